@@ -32,7 +32,7 @@ func checkC20(p *load.Program, r *kit.Report) {
 	var methods []*ssa.Function
 	ms := p.SSA.MethodSets.MethodSet(types.NewPointer(repoT))
 	for i := 0; i < ms.Len(); i++ {
-		if f := p.SSA.MethodValue(ms.At(i)); f != nil && f.Blocks != nil {
+		if f := p.SSA.MethodValue(ms.At(i)); f != nil && f.Blocks != nil && !p.Skipped(f) {
 			methods = append(methods, f)
 		}
 	}
